@@ -28,9 +28,9 @@ std::vector<Op> *ops;        // allocated on the real heap (oracle scope)
 bool final_seen;
 std::vector<uint32_t> *final_vals;
 
-enum { PB_CONSUME_NONEMPTY = 0, PB_CONSUME_DURING_PUSH, PB_BATCHES_GE2, PB_SIZE_NONZERO, PB_OVERLAP, PB_LIN_BUDGET };
+enum { PB_CONSUME_NONEMPTY = 0, PB_CONSUME_DURING_PUSH, PB_BATCHES_GE2, PB_SIZE_NONZERO, PB_OVERLAP, PB_LIN_BUDGET, PB_BULK };
 const char *bprobe_names[] = {"consume_returned_items", "consume_overlapped_a_push", "items_split_over_two_or_more_batches",
-                              "size_observed_nonzero", "operations_overlapped", "linearizability_search_budget_exhausted_history_unjudged", nullptr};
+                              "size_observed_nonzero", "operations_overlapped", "linearizability_search_budget_exhausted_history_unjudged", "producer_with_100_to_3000_elements", nullptr};
 const char *no_faults[] = {nullptr};
 
 void breset()
@@ -67,6 +67,12 @@ void bplan_fn(int tier)
     budget -= bplan.nitems[pi];
     bplan.move_mask[pi] = (int)sim_plan(16);
     bplan.work[pi] = (int)sim_plan(3);
+  }
+  if (sim_plan(12) == 0) {
+    // one producer hands over hundreds of elements (growth of the buffer, long batches); such a history is judged
+    // by conservation and order only, it is far too long for the linearizability search
+    bplan.nitems[sim_plan((uint32_t)bplan.nproducers)] = 100 + (int)sim_plan(tier ? 2900 : 900);
+    sim_probe(PB_BULK);
   }
 }
 
